@@ -602,9 +602,20 @@ impl PolicyEngine for SimPolicy {
         };
         let mw = w.profile.policy.min_wait_permille;
         let minimum_wait = if w.draws.chance(&format!("{label}/minwait"), mw) {
-            let opts = [0u64, 1, 30, 600, 7200];
-            let i = w.draws.draw(&format!("{label}/minwait.v"), opts.len() as u64) as usize;
-            Some(Duration::from_secs(opts[i]))
+            let huge = w.profile.policy.huge_min_wait_permille;
+            if w.draws.chance(&format!("{label}/minwait.huge"), huge) {
+                w.stat("policy.huge_minimum_wait");
+                Some(match w.draws.draw(&format!("{label}/minwait.huge.v"), 4) {
+                    0 => Duration::MAX,
+                    1 => Duration::from_secs(i64::MAX as u64),
+                    2 => Duration::from_secs(u64::MAX),
+                    _ => Duration::from_secs(1 << 40),
+                })
+            } else {
+                let opts = [0u64, 1, 30, 600, 7200];
+                let i = w.draws.draw(&format!("{label}/minwait.v"), opts.len() as u64) as usize;
+                Some(Duration::from_secs(opts[i]))
+            }
         } else {
             None
         };
